@@ -350,6 +350,11 @@ class SymInterp(Interp):
                     if c:
                         best = x
                 return best
+            if m in ("any", "all") and len(args) == 1:
+                vals = [self.truth(self.call_closure(args[0], [x]), "closure of .%s()" % m) for x in recv]
+                return any(vals) if m == "any" else all(vals)
+            if m == "contains" and len(args) == 1:
+                return any(x == args[0] for x in recv)
             if m == "fold":
                 acc = args[0]
                 for x in recv:
